@@ -476,9 +476,9 @@ def _base_case(rnd, tier):
 
 
 def gen_pheno_cases(rnd, tier):
-    nz = 400 if tier == "quick" else 7000
-    nr = 650 if tier == "quick" else 12000
-    nd = 650 if tier == "quick" else 12000
+    nz = 250 if tier == "quick" else 4000
+    nr = 400 if tier == "quick" else 6000
+    nd = 400 if tier == "quick" else 6000
     # family "zero": every way of saying "no noise", every generator kind
     for k in range(nz):
         c = _base_case(rnd, tier)
@@ -556,8 +556,8 @@ def _drive(ctx, gen, fn, obligation, sample_keys):
 
 
 @unit(P, "ring[G_E field trial: records, labels, zero-noise truth, additive noise structure]", "R", bounded=True,
-      note="bounded: <=12 taxa (thorough: also 99-101), <=8 loci, <=3 traits, <=4 environments, <=4 replicates, additive "
-           "and additive+dominance models, 650 (quick) / 10500 (thorough) seeded configurations; convergence of realised "
+      note="bounded: <=12 taxa (2-5% of cases 99-101), <=8 loci, <=3 traits, <=4 environments, <=4 replicates, additive "
+           "and additive+dominance models, 1050 (quick) / 16000 (thorough) seeded configurations; convergence of realised "
            "variances replaced by a check of the covariance each recorded draw is requested with")
 def u_ring_pheno(ctx):
     ctx.rule = ("seeded random trial configurations in three families: all variances zero (five spellings of zero, five "
@@ -649,7 +649,7 @@ _H_MENU = [1.0, 1, 0.5, 0.25, 0.3, 0.1, 0.9, 0.99, 0.999999, 1e-3, 1e-6, 1e-9, 2
 
 
 def gen_herit_cases(rnd, tier):
-    N = 1300 if tier == "quick" else 25000
+    N = 800 if tier == "quick" else 15000
     for k in range(N):
         c = _base_case(rnd, tier)
         if c["n"] == 1:
@@ -673,8 +673,8 @@ def gen_herit_cases(rnd, tier):
 
 
 @unit(P, "ring[set_h2 / set_H2 fix the error variance at the heritability target]", "R", bounded=True,
-      note="bounded: 2..12 taxa (thorough: also 99-101), <=8 loci, <=3 traits, targets from a menu in (0,1] incl. 1, 1-2^-53, "
-           "1e-9 and random ones, scalar and per-trait; 500 (quick) / 8000 (thorough) seeded cases")
+      note="bounded: 2..12 taxa (2-5% of cases 99-101), <=8 loci, <=3 traits, targets from a menu in (0,1] incl. 1, 1-2^-53, "
+           "1e-9 and random ones, scalar and per-trait; 800 (quick) / 15000 (thorough) seeded cases")
 def u_ring_herit(ctx):
     ctx.rule = ("seeded random populations under additive and additive+dominance models (where additive and genotypic "
                 "variance differ); oracle variance computed by loops over the population; followed by one recorded trial "
@@ -984,7 +984,7 @@ def gen_bv_cases(rnd, tier):
                      miscout=False))
     for c in edge:
         yield c
-    N = 900 if tier == "quick" else 20000
+    N = 500 if tier == "quick" else 8000
     for k in range(N):
         ntr = rnd.choice([1, 2, 3, 4])
         sel = rnd.choice(["all", "first_str", "last_str", "reversed", "tuple_subset"])
@@ -997,7 +997,7 @@ def gen_bv_cases(rnd, tier):
                    gt_grp=rnd.random() < 0.7, trait_sel=sel, use_grp_col=rnd.random() < 0.5,
                    gtobj=rnd.choice(["phased", "phased", "unphased", "none"]),
                    index_mode=rnd.choice(["range", "perm", "str"]), miscout=rnd.random() < 0.2)
-    M = 500 if tier == "quick" else 10000
+    M = 250 if tier == "quick" else 4000
     for k in range(M):
         c = _base_case(rnd, tier)
         fam = rnd.choice(["zero", "noise"])
@@ -1016,7 +1016,7 @@ def gen_bv_cases(rnd, tier):
       bounded=True,
       note="bounded: synthetic tables with <=12 phenotyped taxa, 1-4 records each, <=3 unphenotyped and <=2 extra taxa, "
            "<=4 trait columns, plus G_E trials (<=12 taxa, <=4 env, <=4 rep) piped into estimate(); 51 fixed edge cases + "
-           "700 (quick) / 11000 (thorough) seeded cases")
+           "750 (quick) / 12000 (thorough) seeded cases")
 def u_ring_meanbv(ctx):
     ctx.rule = ("fixed edge tables (Taxon1..Taxon10 names, permuted/reversed/sorted genotype taxa, nobody phenotyped, "
                 "duplicate genotype taxon) then seeded random tables: unbalanced record counts, shuffled rows with "
@@ -1098,7 +1098,7 @@ def run_true(case):
 
 
 def gen_true_cases(rnd, tier):
-    N = 1600 if tier == "quick" else 30000
+    N = 1000 if tier == "quick" else 18000
     for k in range(N):
         c = _base_case(rnd, tier)
         c.update(kind="true", pass_table=rnd.random() < 0.5)
@@ -1106,8 +1106,8 @@ def gen_true_cases(rnd, tier):
 
 
 @unit(P, "ring[TruePhenotyping / TrueBreedingValue: truth and alignment]", "R", bounded=True,
-      note="bounded: <=12 taxa (thorough: also 99-101), <=8 loci, <=3 traits, additive and additive+dominance models, "
-           "500 (quick) / 8000 (thorough) seeded populations, one random permutation of the genotype taxa each")
+      note="bounded: <=12 taxa (2-5% of cases 99-101), <=8 loci, <=3 traits, additive and additive+dominance models, "
+           "1000 (quick) / 18000 (thorough) seeded populations, one random permutation of the genotype taxa each")
 def u_ring_true(ctx):
     ctx.rule = ("seeded random populations; true phenotyping must give one record per taxon with its labels and its "
                 "loop-computed genotypic value; true breeding values must follow the order of a permuted genotype matrix")
